@@ -612,6 +612,10 @@ func (c *client) keepalive() {
 		return nil
 	}
 
+	// the conn the last ping was attempted on: a failed ping is a reason to
+	// recover that conn, not whichever one is current when the loop gets to act
+	var pinged ClientConn
+
 	ping := func() error {
 		// skip ping op when do reconnecting
 		c.RLock()
@@ -623,6 +627,8 @@ func (c *client) keepalive() {
 		if c.conn == nil || c.conn.Context() == nil {
 			return nil
 		}
+
+		pinged = c.conn
 
 		id := c.conn.Context().NextReqId()
 
@@ -673,7 +679,9 @@ func (c *client) keepalive() {
 
 			if err := ping(); err != nil {
 				c.Logger.Errorf("keepalive failed to ping, err: %v", err)
-				c.reconnecting()
+				// as above: the conn's close callback may have recovered the
+				// loss already; the conn the write failed on is then gone
+				c.recoverLossIf(false, func() bool { return c.currentConn() == pinged })
 				continue
 			}
 		}
